@@ -81,6 +81,82 @@ fn extra_cmd(src: &mut Src, g: &mut GenCfg) -> Cmd {
     }
 }
 
+impl C17 {
+    /// The replicated node's glue (ReplicatedShardedState::execute with an always-fsync WAL on a faulty disk):
+    /// a command that is answered with an error - for whatever reason - must not have changed its key.
+    fn run_glue(&self, src: &mut Src, ctx: &RunCtx) -> RunReport {
+        use crate::model::cluster::repl_config;
+        use crate::simkit::clock::SimClock;
+        use crate::simkit::disk::{Seq, SimWalStore, WalFault};
+        use crate::simkit::rt;
+        use redis_sim::production::ReplicatedShardedState;
+        use redis_sim::replication::ConsistencyLevel;
+        use redis_sim::streaming::{spawn_wal_actor, FsyncPolicy, WalConfig};
+        let mut rep = RunReport::default();
+        rep.probe("replicated_glue_with_faulty_wal");
+        let b = |s: &str| s.as_bytes().to_vec();
+        let nf = 1 + src.below(3);
+        let mut plan = std::collections::BTreeMap::new();
+        for _ in 0..nf { plan.insert(1 + src.below(40), *src.pick(&[WalFault::SyncError, WalFault::AppendError, WalFault::DiskFull, WalFault::AppendTornIo(500)])); }
+        let mut uniq = 0u64;
+        let cmds: Vec<Cmd> = src.list(14, 11, 12, |s| {
+            uniq += 1;
+            let k = b(&format!("k{}", s.below(2)));
+            match s.below(8) {
+                0 | 1 => vec![b("SET"), k, b(&format!("v{}", uniq))],
+                2 => vec![b("INCR"), k],
+                3 => vec![b("APPEND"), k, b("x")],
+                4 => vec![b("HSET"), b("h0"), b("f"), b(&format!("h{}", uniq))],
+                5 => vec![b("DEL"), k],
+                6 => vec![b("SET"), k, b("7"), b("PX"), b("100000")],
+                _ => vec![b("HSET"), k, b("f"), b("wrongtype?")],
+            }
+        });
+        let trace = ctx.trace;
+        let store = SimWalStore::new(Seq::default());
+        store.set_plan(plan.clone());
+        let st2 = store.clone();
+        let cmds2 = cmds.clone();
+        let (viol, log, fired): (Option<(String, String)>, Vec<String>, usize) = rt::block_on(src.u64_any(), async move {
+            let clock = SimClock::new(1_700_000_000_000);
+            let mut node = ReplicatedShardedState::with_time_source(repl_config(1, ConsistencyLevel::Eventual), clock);
+            let cfg = WalConfig { enabled: true, wal_dir: "/nonexistent".into(), fsync_policy: FsyncPolicy::Always, max_file_size: 400, group_commit_max_entries: 4, group_commit_max_wait: std::time::Duration::from_micros(100), truncation_check_interval: std::time::Duration::from_secs(3600) };
+            let mut log = Vec::new();
+            match spawn_wal_actor(st2.clone(), cfg) { Ok((h, _)) => node.set_wal_handle(h), Err(_) => return (None, log, 0) }
+            async fn exec(node: &ReplicatedShardedState<SimClock>, c: Cmd) -> R { match parse_cmd(&c) { Ok(cmd) => R::from_resp(&node.execute(cmd).await), Err(e) => R::Err(e) } }
+            async fn view(node: &ReplicatedShardedState<SimClock>, k: Vec<u8>) -> String {
+                let bb = |s: &str| s.as_bytes().to_vec();
+                let g = exec(node, vec![bb("GET"), k.clone()]).await; let h = exec(node, vec![bb("HGETALL"), k.clone()]).await; let t = exec(node, vec![bb("PTTL"), k]).await;
+                format!("GET={} HGETALL={} PTTL={}", g.show(), h.show(), t.show())
+            }
+            let mut res = None;
+            for c in &cmds2 {
+                let before = view(&node, c[1].clone()).await;
+                let r = exec(&node, c.clone()).await;
+                let after = view(&node, c[1].clone()).await;
+                if trace { log.push(format!("{} -> {}", show_cmd(c), r.show())); }
+                if r.is_err() && before != after {
+                    res = Some((format!("C17/error-reply-but-state-changed/{}", String::from_utf8_lossy(&c[0]).to_uppercase()), format!("replicated node with an always-fsync WAL on a faulty disk: {} replied {} but key {:?} went from [{}] to [{}]", show_cmd(c), r.show(), String::from_utf8_lossy(&c[1]), before, after)));
+                    break;
+                }
+            }
+            let fired = st2.inner.lock().unwrap().fired.len();
+            (res, log, fired)
+        });
+        rep.trace = log;
+        for _ in 0..fired { rep.fault("wal_io_fault_under_the_glue"); }
+        if let Some((k, m)) = viol { rep.violate(k, m); }
+        rep.evals = cmds.len() as u64;
+        rep.nontrivial = fired > 0;
+        let mut fp = fnv(0x17, &[nf as u8]);
+        for c in &cmds { fp = fnv(fp, show_cmd(c).as_bytes()); }
+        for (k, f) in &plan { fp = fnv(fp, format!("{}{}", k, f.name()).as_bytes()); }
+        rep.fingerprint = fp;
+        rep.sample = Some(json!({"mode": "replicated glue + WAL faults", "commands": cmds.iter().map(|c| show_cmd(c)).collect::<Vec<_>>(), "faults_planned": plan.iter().map(|(c, f)| format!("call{}:{}", c, f.name())).collect::<Vec<_>>()}));
+        rep
+    }
+}
+
 impl Property for C17 {
     fn id(&self) -> &'static str { "C17" }
     fn level(&self) -> &'static str { "exploration" }
@@ -90,11 +166,12 @@ impl Property for C17 {
     fn components_real(&self) -> Vec<&'static str> { vec!["redis::CommandExecutor::execute (all *_ops, script_ops with real Lua)", "Command::from_resp_zero_copy", "Command::is_read_only"] }
     fn components_stubbed(&self) -> Vec<&'static str> { vec!["no connection/shards: the executor is driven directly, as a shard actor drives it", "clock: VirtualTime set by the harness"] }
     fn assumptions(&self) -> Vec<&'static str> { vec!["multi-step scripts that write and then raise are not generated (Redis does not roll those back either); a single-call script stands for its inner command", "a key past its deadline is not part of the visible keyspace, whether or not it was evicted yet"] }
-    fn required_probes(&self) -> Vec<&'static str> { vec!["error_reply_on_existing_key", "readonly_on_existing_key", "script_call", "two_key_command"] }
+    fn required_probes(&self) -> Vec<&'static str> { vec!["error_reply_on_existing_key", "readonly_on_existing_key", "script_call", "two_key_command", "replicated_glue_with_faulty_wal"] }
     fn runs(&self, tier: Tier) -> u64 { match tier { Tier::Quick => 20000, Tier::Thorough => 600_000 } }
 
     fn run(&self, src: &mut Src, ctx: &RunCtx) -> RunReport {
         let mut rep = RunReport::default();
+        if src.below(12) == 0 { return self.run_glue(src, ctx); }
         let mut g = GenCfg::swarm(src, ALL_FAMS, 6);
         g.edgy = g.edgy || src.chance(1, 2);
         let readonly_clock = src.chance(1, 3);
